@@ -140,13 +140,30 @@ func init() {
 						c.Violate(key, ci.Pos(), "bucket reset is not on the success branch of updateLock.TryLock(): two recorders may reset the same bucket concurrently and one of them wipes the other's update")
 						continue
 					}
-					ok, at := allPathsHit(ci.(ssa.Instruction), func(x ssa.Instruction) bool {
+					// the lock is released on every path that starts at the successful TryLock (not only after the reset)
+					var start ssa.Instruction = ci.(ssa.Instruction)
+					for _, ft := range factsAt(ci.(ssa.Instruction)) {
+						if call, ok := ft.Cond.(*ssa.Call); ok && ft.Truth && isStaticCallTo(call, tryLock) {
+							if succ := ft.If.Block().Succs[0]; len(succ.Instrs) > 0 {
+								start = succ.Instrs[0]
+							}
+						}
+					}
+					isUnlock := func(x ssa.Instruction) bool {
 						c2, isCall := x.(ssa.CallInstruction)
 						return isCall && isExtCall(c2, "sync.(Mutex).Unlock")
-					}, func(x ssa.Instruction) bool {
-						c2, isCall := x.(ssa.CallInstruction)
-						return isCall && isStaticCallTo(c2, tryLock)
-					})
+					}
+					ok, at := true, ssa.Instruction(nil)
+					if !isUnlock(start) {
+						ok, at = allPathsHit(start, isUnlock, func(x ssa.Instruction) bool {
+							c2, isCall := x.(ssa.CallInstruction)
+							return isCall && isStaticCallTo(c2, tryLock)
+						})
+						// allPathsHit starts after `start`; start itself may be a return
+						if _, isRet := start.(*ssa.Return); isRet {
+							ok, at = false, start
+						}
+					}
 					if !ok {
 						c.Violate(key, instrPos(at), "a path after the bucket reset leaves without releasing updateLock: every later rollover spins forever")
 					} else {
@@ -240,7 +257,7 @@ func init() {
 					continue
 				}
 				p := accessPath(r.Results[0])
-				if strings.Contains(p, "currentBucketOfTime(now,") && strings.Contains(p, ".Value") {
+				if strings.Contains(p, "currentBucketOfTime({uint64},") && strings.Contains(p, ".Value") {
 					okInner = true
 				} else {
 					c.Violate(fnKey(cbt)+" / returned-bucket", r.Pos(), "returns %s, not the data of the bucket selected for the caller's timestamp", p)
@@ -263,7 +280,7 @@ func init() {
 					}
 					recv := accessPath(ci.Common().Args[0])
 					found = true
-					c.Check(recv == "bla.currentBucketWithTime(now)", fnKey(f)+" / records-into", ci.Pos(), "records into %s (want the bucket selected by the recorder's own timestamp)", recv)
+					c.Check(recv == "{BucketLeapArray}.currentBucketWithTime({uint64})", fnKey(f)+" / records-into", ci.Pos(), "records into %s (want the bucket selected by the recorder's own timestamp)", recv)
 				}
 				if !found {
 					c.Violate(fnKey(f)+" / records-into", f.Pos(), "recorder no longer records into a MetricBucket")
@@ -326,10 +343,11 @@ func init() {
 			}
 			// the validity function
 			want := []string{
-				"0 != intervalInMs", "0 != sampleCount", "(intervalInMs % sampleCount) == 0",
-				"0 != parentIntervalInMs", "0 != parentSampleCount", "(parentIntervalInMs % parentSampleCount) == 0",
-				"(parentIntervalInMs % intervalInMs) == 0",
-				"((intervalInMs / sampleCount) % (parentIntervalInMs / parentSampleCount)) == 0",
+				// parameters in order: sampleCount #0, intervalInMs #1, parentSampleCount #2, parentIntervalInMs #3
+				"0 != {uint32#1}", "0 != {uint32#0}", "({uint32#1} % {uint32#0}) == 0",
+				"0 != {uint32#3}", "0 != {uint32#2}", "({uint32#3} % {uint32#2}) == 0",
+				"({uint32#3} % {uint32#1}) == 0",
+				"(({uint32#1} / {uint32#0}) % ({uint32#3} / {uint32#2})) == 0",
 			}
 			for i, r := range returnsOf(chk) {
 				if !isNilConst(r.Results[0]) {
@@ -439,7 +457,7 @@ func init() {
 					continue
 				}
 				args := ci.Common().Args
-				if len(args) == 3 && accessPath(args[1]) == "now" {
+				if len(args) == 3 && accessPath(args[1]) == "{uint64}" {
 					if mc, ok := stripConv(args[2]).(*ssa.MakeClosure); ok {
 						fn := mc.Fn.(*ssa.Function)
 						var binds []string
@@ -462,16 +480,16 @@ func init() {
 						eachInstr(fn, func(ins ssa.Instruction) {
 							if b, ok := ins.(*ssa.BinOp); ok {
 								s := canonCond(b, true)
-								if s == "^start <= ws" {
+								if s == "^{uint64#0} <= {uint64}" {
 									lo = true
 								}
-								if s == "ws <= ^end" {
+								if s == "{uint64} <= ^{uint64#1}" {
 									hi = true
 								}
 							}
 						})
 						bs := strings.Join(binds, ",")
-						okPred = lo && hi && strings.Contains(bs, "getBucketStartRange(now)#0") && strings.Contains(bs, "getBucketStartRange(now)#1")
+						okPred = lo && hi && len(binds) == 2 && strings.HasSuffix(binds[0], "getBucketStartRange({uint64})#0") && strings.HasSuffix(binds[1], "getBucketStartRange({uint64})#1")
 						c.Check(okPred, fnKey(gsb)+" / window-predicate", ci.Pos(), "buckets selected by start <= ws <= end with (start,end)=getBucketStartRange(now): lo=%v hi=%v bindings=%s", lo, hi, bs)
 					}
 				}
